@@ -85,7 +85,8 @@ func (d *Deliver) GetCommand() sms.ICommander {
 
 func (d *Deliver) GenEmptyResponse() sms.PDU {
 	return &DeliverResp{
-		Header: sgip.NewHeader(0, sgip.SGIP_DELIVER_REP, d.Header.Sequence[0], d.GetSequenceID()),
+		// SGIP 1.2 §3.4: a response repeats the whole sequence number of its command
+		Header: sgip.Header{CommandID: sgip.SGIP_DELIVER_REP, Sequence: d.Header.Sequence},
 	}
 }
 
